@@ -155,6 +155,24 @@ func famDump() {
 		plant(r, t, i%2 == 0)
 		trees = append(trees, t)
 	}
+	// deep nesting: one long path of operators, a string literal at the bottom
+	for _, depth := range []int{17, 31, 32, 33, 34, 35, 48, 63, 64, 65, 66, 100} {
+		for shape := 0; shape < 3; shape++ {
+			t := op("=", vr("s"), cst([]string{"a", "a b", "("}[shape]))
+			for k := 0; k < depth; k++ {
+				switch (k + shape) % 3 {
+				case 0:
+					t = op("not", t)
+				case 1:
+					t = op("and", vr("x"), t)
+				default:
+					t = op("if", vr("y"), t, vr("z"))
+				}
+			}
+			trees = append(trees, t)
+		}
+		trees = append(trees, g.spine("b", depth))
+	}
 	for _, t := range trees {
 		src := t.Src()
 		if seen[src] || strings.Contains(src, "\x00") {
